@@ -394,8 +394,65 @@ func runC10(c *Ctx, n, t int, seed uint64) {
 								continue
 							}
 							if err == nil || len(diff) > 0 {
-								c.Violate("C10/cross-event-replay-accepted:"+g.Event+"->"+ev, fmt.Sprintf("%s's genuine %s (offset %d) re-posted as %s was accepted=%v by %s in %s (changed %v)", g.SenderAddr, g.Event, g.Offset, ev, err == nil, nd.Name, st, diff), map[string]interface{}{"n": n, "t": t, "genuine_offset": g.Offset, "event": g.Event, "genuine_sender": g.SenderAddr, "node": nd.Name, "state": st, "as_event": ev})
+								key := "C10/cross-event-replay-accepted:"
+								if int(g.Offset) < offsetOf(m.Snaps[v]) {
+									key = "C10/cross-event-replay-accepted-after-the-genuine-one:"
+								}
+								c.Violate(key+g.Event+"->"+ev, fmt.Sprintf("%s's genuine %s (offset %d) re-posted as %s was accepted=%v by %s in %s (changed %v)", g.SenderAddr, g.Event, g.Offset, ev, err == nil, nd.Name, st, diff), map[string]interface{}{"n": n, "t": t, "genuine_offset": g.Offset, "event": g.Event, "genuine_sender": g.SenderAddr, "node": nd.Name, "state": st, "as_event": ev})
 							}
+						}
+					}
+				}
+			}
+		}
+	}
+	// (b6) a message of participant P re-posted under every other event name right AFTER the node consumed
+	// the genuine one (P's contribution is recorded, the step is still open for the others): what P said
+	// once may not count a second time as something else
+	{
+		doneB6 := map[string]bool{}
+		for _, m := range rec.Moments {
+			for v, nd := range w.Nodes {
+				upto := offsetOf(m.Snaps[v])
+				if upto > m.BoardLen {
+					upto = m.BoardLen
+				}
+				// the last two messages this node has consumed
+				var last []storage.Message
+				for i := upto - 1; i >= 0 && len(last) < 2; i-- {
+					p := all[i]
+					if exempt(p.Event) || p.Event == EvSigningStart || (p.RecipientAddr != "" && p.RecipientAddr != nd.Name) {
+						continue
+					}
+					last = append(last, p)
+				}
+				for _, p := range last {
+					pk := fmt.Sprintf("%d@%d", p.Offset, v)
+					if doneB6[pk] {
+						continue
+					}
+					doneB6[pk] = true
+					nd.Mem.Restore(m.Snaps[v])
+					st := NodeState(nd, p.DkgRoundID)
+					for _, ev := range allEvents {
+						if ev == p.Event {
+							continue
+						}
+						replay := p
+						replay.Event = ev
+						err, diff, pan := applyAt(w, m, v, replay)
+						c.Eval(1)
+						c.Distinct(fmt.Sprintf("cross-event-just-after|%s->%s|%s", p.Event, ev, st))
+						c.Add("cross_event_replays_right_after_the_genuine_message", 1)
+						if pan != nil {
+							c.Add("panics_seen_(judged_by_C18)", 1)
+							continue
+						}
+						if ev == "signature_reconstruction_failed" && err == nil && len(diff) == 0 {
+							continue
+						}
+						if err == nil || len(diff) > 0 {
+							c.Violate("C10/cross-event-replay-accepted-after-the-genuine-one:"+p.Event+"->"+ev, fmt.Sprintf("%s's genuine %s (offset %d), already consumed by %s, re-posted as %s was accepted=%v in %s (changed %v)", p.SenderAddr, p.Event, p.Offset, nd.Name, ev, err == nil, st, diff), map[string]interface{}{"n": n, "t": t, "genuine_offset": p.Offset, "event": p.Event, "genuine_sender": p.SenderAddr, "node": nd.Name, "state": st, "as_event": ev})
 						}
 					}
 				}
